@@ -388,7 +388,7 @@ def recursion_bound(c, f, call, callee_name):
         if org and org[0] == 'call' and org[1] in ('cfg_opt_getnsec', 'cfg_opt_gettsec', 'cfg_getnsec', 'cfg_gettsec', 'cfg_getsec'):
             return 'bounded by the tree: argument %d is a section one level below, as returned by %s()' % (i, org[1])
         if org and org[0] in ('param',):
-            break   # same object passed on: needs a depth bound
+            continue   # the same object passed on (a context record, the root): another argument may descend
         if org and org[0] == 'field-of-call' and org[2] in ('cfg_setopt', 'cfg_addval', 'cfg_opt_getval'):
             return 'bounded by the schema: argument %d is ->%s of the value created by %s()' % (i, org[1], org[2])
         if org and org[0] == 'field-of-call' and org[2] in c.unknown_funcs and c.func(org[2]) is not None and \
